@@ -173,6 +173,14 @@ def run(prop, tier, seed):
         tags += [n.swapcase().encode(), n.lower().encode(), n.upper().encode(), (n[:3] + chr((ord(n[3]) + 1) % 128)).encode()]
     tags += [b"ABCD", b"\x00\x00\x00\x00", b"    ", b"zzzz", "éAB".encode(), "€X".encode(), "\U0001f600".encode(), "éè".encode(),
              b"\xff\xfe\x00\x01", b"\x80AAA", b"A\xc3\x28A", b"\xed\xa0\x80A", b"\xc0\x80AB", b"\xf8\x88\x80\x80", b"AB\xc3\x00"]
+    # NUL, space, digit, letter, sign in every position (tags shorter than four characters are NUL- or
+    # space-padded in real maps; a NUL may also lead)
+    import itertools
+
+    for combo in itertools.product(b"\x00 A+1", repeat=4):
+        tags.append(bytes(combo))
+    for n in known_names[:6]:
+        tags += [b"\x00" + n.encode()[:3], n.encode()[:3] + b"\x00", n.encode()[:2] + b"\x00\x00", b"\x00\x00" + n.encode()[:2]]
     for _ in range(200 if not thorough else 5000):
         tags.append(bytes(rng.randrange(256) for _ in range(4)))
         tags.append(bytes(rng.choice(b"+-VviI0123456789JYDgEnBkTrxWHe") for _ in range(4)))
